@@ -6,6 +6,7 @@ answered `bad-case` — never defaulted.
 import Vet.Model.Update
 import Vet.Model.Imports
 import Vet.Model.Validate
+import Vet.Model.Aggregate
 namespace Vet.Wire
 open Vet
 
@@ -281,6 +282,35 @@ def wildcardToks (w : Wildcard) : List Nat :=
 def afileToks (f : AFile) : List Nat :=
   [f.audits.length] ++ f.audits.flatMap (fun (n, l) => [n, l.length] ++ l.flatMap (fun a => let t := auditFullToks a; t.length :: t))
   ++ [f.wildcards.length] ++ f.wildcards.flatMap (fun (n, l) => [n, l.length] ++ l.flatMap (fun a => let t := wildcardToks a; t.length :: t))
+
+def aggCrit : P Agg.Crit := do
+  let n ← nat
+  let d ← nat
+  let u ← nat
+  let i ← list nat
+  let f ← list nat
+  pure ⟨n, d, u, i, f⟩
+
+def aggEntry : P Agg.Entry := do
+  let c ← nat
+  let i ← bool
+  let f ← list nat
+  pure ⟨c, i, f⟩
+
+def aggSource : P Agg.Source := do
+  let u ← nat
+  let c ← list aggCrit
+  let a ← list (pair nat (list aggEntry))
+  let w ← list (pair nat (list aggEntry))
+  let t ← list (pair nat (list aggEntry))
+  pure ⟨u, c, a, w, t⟩
+
+def aggTableToks (t : List (Nat × List Agg.Entry)) : List Nat :=
+  t.length :: t.flatMap (fun (k, l) => [k, l.length] ++ l.flatMap (fun e => [e.content, b2n e.importable] ++ listToks e.from_))
+
+def aggResultToks (r : Agg.Result) : List Nat :=
+  [r.criteria.length] ++ r.criteria.flatMap (fun c => [c.name, c.desc, c.descUrl] ++ listToks c.implies ++ listToks c.from_)
+  ++ aggTableToks r.audits ++ aggTableToks r.wildcards ++ aggTableToks r.trusted
 
 def resultToks : PkgResult → List Nat
   | .firstParty => [0]
